@@ -101,7 +101,7 @@ def apply_mode(a, what):
 
 
 class Session:
-    def __init__(self, exe, spec, cols=80, rows=24, raw_initial=False, timeout=20.0):
+    def __init__(self, exe, spec, cols=80, rows=24, raw_initial=False, timeout=20.0, ctty=True):
         self.timeout = timeout
         self.out = bytearray()
         self.obs = []
@@ -122,7 +122,10 @@ class Session:
         if pid == 0:
             try:
                 os.setsid()
-                fcntl.ioctl(slave, termios.TIOCSCTTY, 0)
+                if ctty:
+                    fcntl.ioctl(slave, termios.TIOCSCTTY, 0)
+                # (ctty False: the terminal on descriptors 0-2 is NOT the process's controlling terminal, as when a supervisor hands
+                # a pty slave to a child: job-control queries on it fail, reading and tcsetattr work)
                 os.dup2(slave, 0)
                 os.dup2(slave, 1)
                 os.dup2(slave, 2)
@@ -380,7 +383,7 @@ class Session:
         return self.hangup_and_close()
 
 
-def run_case(exe, spec, chunks, cols=80, rows=24, raw_initial=False, probe=None, events=None, between_reads=None, sync_keys=False):
+def run_case(exe, spec, chunks, cols=80, rows=24, raw_initial=False, probe=None, events=None, between_reads=None, sync_keys=False, ctty=True):
     """Returns dict: obs (list of lines), out (bytes), per-chunk outputs, statuses.
     events: {chunk index: [("winch", cols) | ("tstp",)]} performed once that chunk has been consumed.
     sync_keys: one key per chunk, every key logged by the child (no custom binding swallows it): after chunk k wait until
@@ -388,7 +391,7 @@ def run_case(exe, spec, chunks, cols=80, rows=24, raw_initial=False, probe=None,
     I/O (an SQLite database) makes the read-counter test of quiescence unreliable.
     between_reads: list of "keep" | "raw" | "cooked": with `pause 1` in the spec the child stops itself after every
     read; the driver then records the terminal settings (key "stops") and switches them as told before resuming."""
-    s = Session(exe, spec, cols, rows, raw_initial)
+    s = Session(exe, spec, cols, rows, raw_initial, ctty=ctty)
     try:
         return _run_case(s, chunks, rows, probe, events, between_reads, sync_keys)
     except BaseException:
